@@ -700,10 +700,45 @@ fn deps_json(d: &BTreeSet<(u64, String)>) -> Value {
 /// spec -> code for one MC_DepQueue case {inst, hist:[{n,k,deps}], pending}.  The queue's contract is the
 /// property here (DESIGN.md §6 C23): the reported dependency set of every step, and the pending set, must be
 /// the model's.
+/// The queue's contract in Rust (last writer, plus for a write the reads since; pending = all accesses since and
+/// including the last write).  Used only to judge the replay of a recorded history (a rejection of the trace
+/// validation), where no TLC-computed expectation is at hand; the primary oracle is DepQueue.tla.
+fn contract(inst: &str, hist: &[Value]) -> (Vec<Value>, Value) {
+    let is_w = |h: &Value| matches!(s(h, "k").as_str(), "Write" | "Capture" | "Using");
+    let wdep = |p: Option<usize>| -> Vec<(u64, String)> {
+        match p {
+            Some(q) => vec![(util::u(&hist[q], "n"), if inst == "frame" { "Node".to_string() } else { s(&hist[q], "k") })],
+            None => if inst == "frame" { vec![(0, "Node".to_string())] } else { vec![] },
+        }
+    };
+    let rtype = if inst == "frame" { "Node" } else { "Read" };
+    let at = |p: usize, with_reads: bool| -> BTreeSet<(u64, String)> {
+        let g = (0..p).rev().find(|&q| is_w(&hist[q]));
+        let mut d: BTreeSet<(u64, String)> = wdep(g).into_iter().collect();
+        if with_reads {
+            for q in g.map(|x| x + 1).unwrap_or(0)..p {
+                d.insert((util::u(&hist[q], "n"), rtype.to_string()));
+            }
+        }
+        d
+    };
+    let with_deps = hist.iter().enumerate().map(|(p, h)| {
+        let mut h = h.clone();
+        h["deps"] = deps_json(&at(p, is_w(&hist[p])));
+        h
+    }).collect();
+    (with_deps, deps_json(&at(hist.len(), true)))
+}
+
 pub fn replay_queue(_ctx: &Ctx, case: &Value) -> Outcome {
+    // a violation replay file from trace validation carries the recorded history: re-run it, judged by `contract`
+    let from_history = case.get("history").map(|h| {
+        let (hist, pending) = contract(&s(&h[0], "inst"), h[0]["hist"].as_array().unwrap());
+        json!({"inst": h[0]["inst"], "hist": hist, "pending": pending})
+    });
+    let case = from_history.as_ref().unwrap_or(case);
     let inst = s(case, "inst");
-    let hist: Vec<Value> = case.get("hist").or_else(|| case.get("history").map(|h| &h[0]["hist"]))
-        .and_then(|h| h.as_array()).cloned().unwrap_or_default();
+    let hist: Vec<Value> = case["hist"].as_array().cloned().unwrap_or_default();
     let (rep, pend) = run_real_queue(&inst, &hist);
     let writes = hist.iter().filter(|h| matches!(s(h, "k").as_str(), "Write" | "Capture" | "Using")).count();
     let mut o = Outcome::ok(writes >= 1 && hist.len() >= 2);
